@@ -9,10 +9,12 @@
 // must equal what the Lean model (over Rat) prints for the same addNet/solve calls.
 //
 // Direct oracle (independent code, real solver through NetModel's public interface):
-//   S2  scaling all net weights and penalty strengths by 2^k gives bitwise-equal solutions;
+//   S2  scaling all net weights and penalty strengths by 2^k (k in -16..8) gives bitwise-equal solutions;
 //   SN  scaling by 2.5 or 7 gives solutions equal within a tolerance derived from the system
-//       (T = 2·‖A⁻¹‖∞·(tol·‖b‖₂ + 1e-5·(‖A‖∞‖x*‖∞ + ‖b‖∞)), A,b from the hook, or from the
-//       documented quadratic when the hook is absent and the model is the initial star);
+//       (T = 2·‖A⁻¹‖∞·(tol·‖b‖₂ + 1e-5·(‖A‖∞‖x*‖∞ + ‖b‖∞ + M)), A,b from the hook, or from the
+//       documented quadratic when the hook is absent and the model is the initial star; M bounds the
+//       magnitude of the terms that are summed into one rhs entry — they may cancel, and the float
+//       accumulation errs relative to the terms, not to the sum — by ‖A‖∞·2·(largest coordinate));
 //   LS  the initial star solve (two-pin nets + star nets) returns the minimiser of the documented
 //       weighted quadratic Q (normal equations of Q built here in double, dense solve);
 //   W<1 a two-net gadget: one cell pulled by a weight≥1 net and a weight<1 net sits at the weighted
@@ -221,6 +223,23 @@ static DenseSol denseSolve(const Dense &d) {
 static double solverTolerance(const DenseSol &s, double tol) {
   return s.normInvInf * (tol * s.normB2 + 1e-5 * (s.normAInf * s.normXInf + s.normBInf));
 }
+// The rhs entries are sums of terms (matrix entry)·(offset or position difference) that may cancel; the
+// single-precision accumulation errs by a fraction of the *magnitude* of the terms, not of the sum.  These two
+// give that magnitude: exactly when the system is built here, bounded by ‖A‖∞·2·(largest coordinate) otherwise.
+static double rhsMagnitude(const struct Dense &d);
+static double coordScale(const Case &c) {
+  double p = 0;
+  auto up = [&](double v) { if (std::isfinite(v)) p = std::max(p, std::fabs(v)); };
+  for (float v : c.pl) up(v);
+  for (float v : c.target) up(v);
+  for (auto &n : c.nets) {
+    for (float v : n.offs) up(v);
+    if (n.five) { up(n.mn); up(n.mx); }
+  }
+  double pm = 0;
+  for (float v : c.pl) pm = std::max(pm, std::fabs((double)v));
+  return 2.0 * (p + pm);  // |cell position + offset| ≤ p + pm
+}
 static Dense denseFromCapture(const Captured &c) {
   Dense d(c.matSize);
   for (size_t k = 0; k < c.rows.size(); ++k) d.at(c.rows[k], c.cols[k]) += (double)c.values[k];
@@ -259,6 +278,12 @@ static Dense denseFromStored(int nbCells, const QNets &stored) {
     if (empty && d.b[i] == 0) d.at(i, i) = 1.0;  // untouched unknown: the solver keeps it at 0
   }
   return d;
+}
+
+static double rhsMagnitude(const Dense &d) {
+  double m = 0;
+  for (double v : d.babs) m = std::max(m, v);
+  return m;
 }
 
 static Dense denseFromQ(const Case &c) {
@@ -454,7 +479,9 @@ static void scalingOracle(vh::Out &out, const std::string &id, const Case &c, vh
   armHook(false);
   for (float v : base) if (!std::isfinite(v)) { out.count("skipped_nonfinite_solution"); return; }
   // S2: powers of two, bitwise
-  int ks[3] = {(int)g.range(-4, -1), (int)g.range(1, 6), (int)g.range(-6, 8)};
+  // the last one is far down: absolute magnitudes must not matter (all values stay normal floats: weights ≥ 0.1·2^-16,
+  // squared residuals of the conjugate gradient ≥ ~1e-25)
+  int ks[4] = {(int)g.range(-4, -1), (int)g.range(1, 6), (int)g.range(-6, 8), (int)g.range(-16, -9)};
   for (int k : ks) {
     if (k == 0) continue;
     std::vector<float> sc = solveCase(c, pow2(k));
@@ -473,7 +500,7 @@ static void scalingOracle(vh::Out &out, const std::string &id, const Case &c, vh
   if (!have) { out.count("SN_skipped_no_hook"); return; }
   DenseSol s = denseSolve(d);
   if (!s.ok) { out.count("SN_skipped_singular"); return; }
-  double T = 2.0 * solverTolerance(s, c.tol);
+  double T = 2.0 * (solverTolerance(s, c.tol) + s.normInvInf * 1e-5 * s.normAInf * coordScale(c));
   double scale = 1.0;
   for (int i = 0; i < c.nbCells; ++i) scale = std::max(scale, std::fabs(s.x[i]));
   // the solver's own answer must already be within T/2 of the exact solution
@@ -502,7 +529,7 @@ static void lsqOracle(vh::Out &out, const std::string &id, const Case &c) {
   Dense d = denseFromQ(c);
   DenseSol s = denseSolve(d);
   if (!s.ok) { out.count("LS_skipped_singular"); return; }
-  double T = solverTolerance(s, c.tol);
+  double T = solverTolerance(s, c.tol) + s.normInvInf * 1e-5 * rhsMagnitude(d);
   double scale = 1.0;
   for (int i = 0; i < c.nbCells; ++i) scale = std::max(scale, std::fabs(s.x[i]));
   bool sharp = T <= 1e-2 * scale;
@@ -822,9 +849,7 @@ static void circuitLsqOracle(vh::Out &out, const std::string &id, vh::Rng &g) {
     out.evaluations++;
     // the rhs entries are sums of terms w·(offset difference) that may cancel: the single-precision accumulation
     // errs by a fraction of the *magnitude* of the terms, not of the sum
-    double bmag = 0;
-    for (double v : d.babs) bmag = std::max(bmag, v);
-    double T = solverTolerance(s, p.tolerance) + s.normInvInf * 1e-5 * bmag;
+    double T = solverTolerance(s, p.tolerance) + s.normInvInf * 1e-5 * rhsMagnitude(d);
     double scale = 1.0;
     for (int i = 0; i < c.nbCells(); ++i) scale = std::max(scale, std::fabs(s.x[i]));
     bool sharp = T <= 1e-2 * scale;
